@@ -287,6 +287,15 @@ func (x *c16Runner) strs(n int) {
 						"unquote_jsonEncode", tin, got, "some "+hx(s))
 				}
 			}
+			// json.Marshal of invocation data re-compacts the RawMessage arguments with HTML
+			// escaping: the text quoteString wrote becomes exactly what the HTML-mode
+			// encoder writes for the string (so string_leaf_json_to_mro with html = true
+			// is about that path)
+			if rm, err := json.Marshal(json.RawMessage(mq)); err != nil || string(rm) != goTok[1] {
+				x.strViolate("property", "C16:str:rawmessage-compaction",
+					"json.Marshal of a RawMessage holding quoteString's text differs from json.Marshal of the string",
+					"jsonEncodeString true~json.Marshal(RawMessage)", in, fmt.Sprintf("%q err=%v", string(rm), err), goTok[1])
+			}
 			// MRO -> JSON: MarshalJSON of the string expression is decoded to s
 			se := &syntax.StringExp{Value: s}
 			mj, err := se.MarshalJSON()
